@@ -436,6 +436,49 @@ pub fn run_op(ctx: &Ctx, chip: &NG, l: &mut impl Layouter<F>) -> Result<(), Erro
             };
             ctx.out_bit(chip, l, &r)
         }
+        // ---------------- chains through the bound cache of NativeGadget (`constrained_cells`) ----------------
+        // every place that RECORDS a bound (byte/bit conversions, assert_lower_than_fixed, assert_equal) followed by
+        // every place that SKIPS constraints because of a recorded bound (added after seeded C04-f)
+        "cache_byte_lt" | "cache_byte_lower_than_fixed" => {
+            let b = ctx.in_byte(chip, l)?;
+            let x: AssignedNative<F> = chip.convert(l, &b)?;
+            if op == "cache_byte_lt" {
+                chip.assert_lower_than_fixed(l, &x, &s.p_big("bound"))
+            } else {
+                let bx = chip.bounded_of_element(l, 8, &x)?;
+                let r = ComparisonInstructions::<F, AssignedNative<F>>::lower_than_fixed(chip, l, &bx, cf(s, "bound"))?;
+                ctx.out_bit(chip, l, &r)
+            }
+        }
+        "cache_bit_lt" => {
+            let b = ctx.in_bit(chip, l)?;
+            let x: AssignedNative<F> = chip.convert(l, &b)?;
+            chip.assert_lower_than_fixed(l, &x, &s.p_big("bound"))
+        }
+        "cache_lt_then_byte" | "cache_lt_then_bit" => {
+            let x = ctx.in_native(chip, l)?;
+            chip.assert_lower_than_fixed(l, &x, &s.p_big("bound"))?;
+            if op == "cache_lt_then_byte" {
+                let r: AssignedByte<F> = chip.convert(l, &x)?;
+                ctx.out_byte(chip, l, &r)
+            } else {
+                let r: AssignedBit<F> = chip.convert(l, &x)?;
+                ctx.out_bit(chip, l, &r)
+            }
+        }
+        "cache_eq_then_byte" => {
+            let x = ctx.in_native(chip, l)?;
+            let b = ctx.in_byte(chip, l)?;
+            let y: AssignedNative<F> = chip.convert(l, &b)?;
+            chip.assert_equal(l, &x, &y)?;
+            let r: AssignedByte<F> = chip.convert(l, &x)?;
+            ctx.out_byte(chip, l, &r)
+        }
+        "cache_lt_lt" => {
+            let x = ctx.in_native(chip, l)?;
+            chip.assert_lower_than_fixed(l, &x, &s.p_big("bound"))?;
+            chip.assert_lower_than_fixed(l, &x, &s.p_big("bound2"))
+        }
         // ---------------- range checks / comparisons ----------------
         "assert_lower_than_fixed" => {
             let x = ctx.in_native(chip, l)?;
